@@ -43,6 +43,41 @@ func jobC08x(c *rt.Ctx) {
 			return map[string]interface{}{"scalar": ref.Hex(s), "out": ref.Hex(o1)}
 		}, o1, a1[:], []byte(fmt.Sprint(e1 != nil)))
 	}
+	// the base-point product at every stack depth of the calling goroutine (8-byte steps up to 72 KB):
+	// the set of results observed is part of the transcript (one element in every configuration)
+	c.Require("x25519-base-stack")
+	for si, b0 := range []byte{0x10, 0xf0, 0x80} {
+		if !c.Take() {
+			continue
+		}
+		var in [32]byte
+		for i := range in {
+			in[i] = byte(0x37*i + 0x21)
+		}
+		in[0] = b0
+		seen := map[[32]byte]int{}
+		rt.StackSweep(72<<10, func() {
+			var out [32]byte
+			ScalarBaseMult(&out, &in)
+			seen[out]++
+		}, nil)
+		var parts [][]byte
+		first := ""
+		for k := range seen {
+			kk := k
+			parts = append(parts, kk[:])
+			if first == "" {
+				first = ref.Hex(kk[:])
+			}
+		}
+		if len(parts) > 1 {
+			parts = [][]byte{[]byte(fmt.Sprintf("%d distinct results over the stack depths", len(parts)))}
+		}
+		sii := si
+		emit("x25519-base-stack", func() map[string]interface{} {
+			return map[string]interface{}{"scalar_byte0": b0, "distinct_results": len(seen), "out": first, "case": sii}
+		}, parts...)
+	}
 	for i := 0; i < 64; i++ {
 		if !c.Take() {
 			continue
